@@ -4,6 +4,9 @@ import json
 from . import engine, scenarios
 
 
+TIMING_KEYS = ("coroutines-stalled", "bystanders-dead")
+
+
 def run_family(ctx, family, n, oracle, stream=None, known_hang=None):
     stream = stream or family
     rng = ctx.rng(family)
@@ -31,6 +34,13 @@ def run_family(ctx, family, n, oracle, stream=None, known_hang=None):
                           {"scenario": sc})
             continue
         for key, what in oracle(sc, out):
+            if key.startswith(TIMING_KEYS):
+                # a verdict that rests on elapsed time alone (a busy machine can starve a thread for a
+                # moment) must show again when the scenario is run once more, on its own
+                again = engine.run_scenarios([sc])[0]
+                if not any(k == key for k, _ in oracle(sc, again)):
+                    ctx.tally("timing-verdict-not-confirmed:" + key)
+                    continue
             ctx.violation(key, what, {"scenario": sc, "trace": tr[1]})
         if "driver_error" in ans:
             ctx.disagree(stream, {"scenario": sc}, tr[1], ans)
